@@ -947,4 +947,119 @@ theorem FM.sim_run : ∀ (ops : List FOp) (s : FM) (t : VarM), s.Inv → s.Sim t
         exact ih s' t' (FM.inv_step s s' op h h1) hstep
 
 
+
+/-! ## recursion chains on the variable machine -/
+
+theorem VarM.run_append : ∀ (ops1 ops2 : List FOp) (t : VarM),
+    VarM.run t (ops1 ++ ops2) = (VarM.run t ops1).bind fun t' => VarM.run t' ops2 := by
+  intro ops1
+  induction ops1 with
+  | nil => intro ops2 t; rfl
+  | cons op ops ih =>
+    intro ops2 t
+    simp only [List.cons_append, VarM.run]
+    cases t.step op with
+    | none => rfl
+    | some t1 => exact ih ops2 t1
+
+/-- the descent on the variable machine -/
+theorem VarM.descent : ∀ (vs : List (Int × Bool)) (t : VarM),
+    ∃ t', VarM.run t (recDescent vs) = some t' ∧ t'.fp = t.fp + vs.length ∧ t'.out = t.out ∧
+      t'.nacts = t.nacts + vs.length ∧
+      t'.cells.length = t.cells.length + vs.length ∧
+      (∀ (j : Nat) (c : Nat × Nat), t.cells[j]? = some c → t'.cells[j]? = some c) ∧
+      (∀ a, a < t.nacts → t'.vars a = t.vars a) ∧
+      (∀ (i : Nat) (p : Int × Bool), vs[i]? = some p → ∃ c : Nat × Nat, t'.cells[t.cells.length + i]? = some c ∧ t'.vars c.1 c.2 = p.1 ∧ c.1 < t'.nacts) := by
+  intro vs
+  induction vs with
+  | nil =>
+    intro t
+    refine ⟨t, rfl, rfl, rfl, rfl, rfl, fun _ _ h => h, fun _ _ => rfl, ?_⟩
+    intro i p h; simp at h
+  | cons p rest ih =>
+    intro t
+    -- the state after one level
+    let t1 : VarM :=
+      { t with stackf := upd t.stackf (t.fp + 1) t.nacts,
+               vars := upd (upd t.vars t.nacts (fun _ => 0)) t.nacts (upd (fun _ => 0) 0 p.1),
+               fp := t.fp + 1, nacts := t.nacts + 1, cells := t.cells ++ [(t.nacts, 0)] }
+    have hlev : VarM.run t (recLevel p.1 p.2 ++ recDescent rest) = VarM.run t1 (recDescent rest) := by
+      simp only [recLevel, List.cons_append, List.nil_append, VarM.run, VarM.step, Option.bind_some,
+        upd_same, Nat.not_lt_zero, if_false, Nat.sub_zero, t1]
+    obtain ⟨t', hrun, hfp, hout, hn, hlen, hcells, hvars, hlv⟩ := ih t1
+    refine ⟨t', ?_, ?_, ?_, ?_, ?_, ?_, ?_, ?_⟩
+    · simp only [recDescent]; rw [hlev]; exact hrun
+    · simp only [hfp, t1, List.length_cons]; omega
+    · simp only [hout, t1]
+    · simp only [hn, t1, List.length_cons]; omega
+    · simp only [hlen, t1, List.length_append, List.length_cons, List.length_nil]; omega
+    · intro j c hj
+      apply hcells
+      have hlt : j < t.cells.length := by
+        rcases Nat.lt_or_ge j t.cells.length with h | h
+        · exact h
+        · simp [List.getElem?_eq_none h] at hj
+      simp only [t1, List.getElem?_append_left hlt]; exact hj
+    · intro a ha
+      rw [hvars a (by simp only [t1]; omega)]
+      simp only [t1]
+      rw [upd_other _ _ _ _ (by omega), upd_other _ _ _ _ (by omega)]
+    · intro i q hq
+      cases i with
+      | zero =>
+        simp only [List.getElem?_cons_zero, Option.some.injEq] at hq
+        subst hq
+        refine ⟨(t.nacts, 0), ?_, ?_, ?_⟩
+        · apply hcells
+          simp [t1]
+        · rw [hvars t.nacts (by simp only [t1]; omega)]
+          simp only [t1, upd_same]
+        · simp only [hn, t1]; omega
+      | succ i =>
+        simp only [List.getElem?_cons_succ] at hq
+        obtain ⟨c, hc, hv, hlt⟩ := hlv i q hq
+        refine ⟨c, ?_, hv, hlt⟩
+        have : t1.cells.length + i = t.cells.length + (i + 1) := by
+          simp only [t1, List.length_append, List.length_cons, List.length_nil]; omega
+        rw [← this]; exact hc
+
+
+/-- every level returns: only `fp` moves -/
+theorem VarM.returns : ∀ (n : Nat) (t : VarM), n ≤ t.fp →
+    VarM.run t (List.replicate n FOp.ret) = some { t with fp := t.fp - n } := by
+  intro n
+  induction n with
+  | zero => intro t _; rfl
+  | succ n ih =>
+    intro t h
+    have h0 : ¬ t.fp = 0 := by omega
+    simp only [List.replicate_succ, VarM.run, VarM.step, h0, if_false, Option.bind_some]
+    rw [ih _ (by show n ≤ t.fp - 1; omega)]
+    congr 2
+    show t.fp - 1 - n = t.fp - (n + 1)
+    omega
+
+/-- reading the cells `base, base+1, …` one after the other -/
+theorem VarM.reads : ∀ (ws : List Int) (base : Nat) (t : VarM),
+    (∀ (i : Nat) (w : Int), ws[i]? = some w → ∃ c : Nat × Nat, t.cells[base + i]? = some c ∧ t.vars c.1 c.2 = w) →
+    ∃ t', VarM.run t ((List.range' base ws.length).map FOp.loadFree) = some t' ∧ t'.out = ws.reverse ++ t.out := by
+  intro ws
+  induction ws with
+  | nil => intro base t _; exact ⟨t, rfl, rfl⟩
+  | cons w rest ih =>
+    intro base t h
+    obtain ⟨c, hc, hv⟩ := h 0 w rfl
+    simp only [Nat.add_zero] at hc
+    let t1 : VarM := { t with out := t.vars c.1 c.2 :: t.out }
+    have h1 : ∀ (i : Nat) (w' : Int), rest[i]? = some w' → ∃ c : Nat × Nat, t1.cells[base + 1 + i]? = some c ∧ t1.vars c.1 c.2 = w' := by
+      intro i w' hi
+      obtain ⟨c', hc', hv'⟩ := h (i + 1) w' (by simpa using hi)
+      exact ⟨c', by rw [← hc']; congr 1; omega, hv'⟩
+    obtain ⟨t', hrun, hout⟩ := ih (base + 1) t1 h1
+    refine ⟨t', ?_, ?_⟩
+    · simp only [List.length_cons, List.range'_succ, List.map_cons, VarM.run, VarM.step, hc, Option.bind_some]
+      exact hrun
+    · rw [hout]
+      simp only [t1, hv, List.reverse_cons, List.append_assoc, List.singleton_append]
+
 end Risor.C02
